@@ -8,6 +8,7 @@ import traceback
 import numpy as np
 from PIL import Image, ImageChops
 
+import c07_samples
 import core
 import extract_c07
 import pixels_common as pc
@@ -47,20 +48,29 @@ def pil_vs_numpy(pil_img, arr, cmyk_expected_inverted=False):
 
 def run(ctx: core.Run):
     gen = ctx.regenerate(extract_c07.gen_pixels)
-    ctx.prove(["PsdVerif.Props.C07"])
+    gen_samples = ctx.regenerate(extract_c07.gen_pixel_samples)
+    ctx.prove(["PsdVerif.Props.C07", "PsdVerif.Props.C07Samples"])
     ctx.trusted_base += [
         "Lean 4.33 kernel; axioms allowed: propext, Classical.choice, Quot.sound (audited per theorem)",
         "Model/Pixels.lean: hand transliteration of the import/export glue (frompil, PixelLayer.frompil, "
         "convert_image_data_to_pil, convert_layer_to_pil, post_process, get_image_data, get_layer_data, "
         "has_transparency, get_transparency_index); tied by this run's correspondence check and by the regenerated tables",
-        "harness/extract_c07.py (tables from the live modules), harness/pixels_common.py (meaning of the symbolic samples)",
-        "PIL: Image.convert / split / merge / getchannel / putalpha, ImageChops.invert; NumPy; the channel codecs (C04)",
+        "Model/PixelSamples.lean: hand transliteration of the sample arithmetic (plane(), _create_image, _parse_array, "
+        "ImageChops.invert, both matte removals, Image.convert per pixel); its constants / dtypes / operators / calls / inversion "
+        "sites are regenerated from the AST and tied (samples_tied); its values are compared with the real functions on every "
+        "8-bit and 16-bit code, on seeded binary32 patterns, on all 65536 (colour, alpha) pairs, and with the real pipeline "
+        "(stored bytes, 8-bit samples, float32 bits - exact) on images holding every sample value",
+        "binary32 as exact rationals (f32Bits / f32Value of Model/MergedPixels.lean: nearest, ties to even); that NumPy's "
+        "float32 division is IEEE (correctly rounded) and that PIL evaluates `point(lambda)` on I / F images as scale * x + offset "
+        "in C doubles with truncation on store is observed by the correspondence, not proved",
+        "harness/extract_c07.py (tables from the live modules, arithmetic from the AST), harness/pixels_common.py (meaning of the "
+        "symbolic samples), harness/c07_samples.py",
+        "PIL: split / merge / getchannel / putalpha / frombytes / point / convert (modelled per pixel for the six modes, compared on "
+        "seeded pixels every run); NumPy; the channel codecs (C04)",
     ]
     ctx.assumptions += [
-        "Pil.Lawful: convert(m) yields mode m, the same size, a well-formed image; convert to the own mode copies; "
-        "convert('RGBA').getchannel('A') is the alpha band of an LA/RGBA image (exercised on every case)",
-        "Px.Lawful: ImageChops.invert is an involution on samples; pil_io._create_image(store_depth(x)) = x for "
-        "depth 8/16/32 (exercised exhaustively over the 256 sample values in this run)",
+        "the sample laws (Px.LawfulAt d for d = 8, 16, 32; Pil.Lawful) are no longer assumptions: px_lawful_concrete, "
+        "pil_lawful_concrete prove them for the modelled arithmetic",
         "channel compression is lossless (C04); ICC conversion is switched off or absent in the generated documents",
         "layers with a non-empty extent (width, height > 0)",
     ]
@@ -168,6 +178,16 @@ def run(ctx: core.Run):
     # =========================== exports of documents read from files =========================
     check_fixtures(ctx, quick)
 
+    # =========================== the sample arithmetic =========================================
+    # the concrete model (Model/PixelSamples.lean) against the real functions code by code, against the real pipeline
+    # on images holding every sample value (exact: bytes, 8-bit samples, float32 bits), and the search matrix over every
+    # source kind x document mode x depth x PSD/PSB x compression (oracle independent of the model)
+    sample_tables = c07_samples.check_functions(ctx)
+    c07_samples.check_concrete(ctx)
+    if sample_tables:
+        c07_samples.check_doc_depths(ctx, sample_tables, meta_of)
+    c07_samples.search_matrix(ctx, classify_doc)
+
     ctx.rule = (
         "documents: PIL modes L, LA, RGB, RGBA, CMYK, 1 x sizes %s x compression {RAW, RLE, ZIP, ZIP+prediction}; "
         "layers: source mode x document {L, LA, RGB, RGBA, CMYK, CMYK+alpha} x depth {8,16,32} (every combination) "
@@ -176,20 +196,45 @@ def run(ctx: core.Run):
         "with seeded noise. A case is non-trivial when the image has more than one pixel; distinct = distinct "
         "(kind, modes, depth, size, compression, offset) tuples." % (sizes,)
     )
+    ctx.rule += (
+        " SAMPLES: _create_image / _parse_array against the model on every code of depth 8 (256) and 16 (65536) and on "
+        "seeded + boundary binary32 bit patterns; ImageChops.invert on 0..255; _remove_white_background on all 65536 (colour, alpha) "
+        "pairs; Image.convert for the 30 mode pairs on seeded pixels; the concrete model run (pxs.layer / pxs.doc) against the real "
+        "pipeline for source mode x document mode x depth (108) and the document imports, on 16x16 images whose bands are seeded "
+        "permutations of 0..255 (every value of every band, every alpha value against many colours), plus an RGBA document with all "
+        "65536 (colour, alpha) pairs; SEARCH MATRIX: %d source kinds (%s) x 6 document modes x 3 depths with seeded compression / "
+        "offset, a PSB canvas (30001 wide) for every document mode x depth x compression, every source kind x compression as a "
+        "document; per case: PIL colour bands and alpha exact, NumPy |x - v/255| <= 1e-6 with opaque exactly 1.0, "
+        "round(NumPy * 255) = PIL." % (len(c07_samples.SOURCE_KINDS), ", ".join(c07_samples.SOURCE_KINDS))
+    )
     ctx.model_coverage = {
         "modelled": ["PSDImage.frompil", "_make_header", "pil_mode", "has_preview", "PixelLayer.frompil",
                      "convert_image_data_to_pil", "convert_layer_to_pil", "post_process", "_merge_channels",
                      "_check_channels", "_remove_white_background (as a sample parameter)", "get_image_data",
                      "get_layer_data", "_remove_background", "has_transparency", "get_transparency_index"],
-        "parameters": ["Image.convert", "ImageChops.invert", "depth encoding", "matte removal arithmetic"],
+        "sample arithmetic (Model/PixelSamples.lean)": [
+            "plane() of PixelLayer.frompil (8: byte, 16: * 257 in uint16, 32: float32 / 255.0)", "_create_image (8, 16, 32)",
+            "_parse_array (8, 16, 32)", "ImageChops.invert", "_remove_white_background", "_remove_background",
+            "Image.convert between 1, L, LA, RGB, RGBA, CMYK"],
+        "parameters": [],
         "opaque": ["ICC conversion (_apply_icc)", "colour modes BITMAP (depth 1), INDEXED, MULTICHANNEL, DUOTONE, LAB",
-                   "masks (channel ids -2, -3)", "PixelLayer._convert (re-import of a rendered layer)"],
+                   "masks (channel ids -2, -3)", "PixelLayer._convert (re-import of a rendered layer)",
+                   "source modes other than the six (P, PA, LAB, YCbCr, HSV, RGBX, I, F, I;16, La, RGBa, key-colour "
+                   "transparency): search only, PIL's own convert is the reference"],
     }
     ctx.extra["matrix_documents"] = {k: sorted(v) for k, v in matrix_doc.items()}
     ctx.extra["matrix_layers"] = {k: sorted(v) for k, v in matrix_layer.items() if v != {"exact"}} or "all exact"
     ctx.extra["matrix_layers_exact"] = sum(1 for v in matrix_layer.values() if v == {"exact"})
     ctx.extra["generated_tables"] = gen
     ctx.notes += [
+        "stated in the model, not proved: unmattePil (the float32 evaluation ImageMath performs) = unmatte8 (its integer form, which "
+        "the concrete Px uses) - both are evaluated by the compiled model on all 65536 pairs and compared with each other and with "
+        "the real _remove_white_background on every run; a kernel proof would take about half an hour of evaluation.",
+        "numpy_export_value: at every depth the NumPy export of an imported sample v is the same float, the binary32 nearest to "
+        "v/255 (not v/255 itself: that is a binary fraction only for v = 0 and 255; numpy_export_nearest gives the 2^-25 bound and "
+        "the neighbour-midpoint characterisation).",
+        "float inversion 1 - x is not an involution in binary32 (float_inversion: v = 1); the pipeline inverts 8-bit samples only "
+        "(samples_tied: three ImageChops.invert under mode == 'CMYK', no constant - x in numpy_io).",
         "doc_import_export is proved for modes 1, L, LA, RGB, CMYK (…_partial) and refuted for RGBA "
         "(doc_import_export_rgba_fails, exact description in doc_import_export_rgba): frompil stores the colour "
         "planes as they come, both exports remove a white matte; no stored representation makes the un-matting exact.",
@@ -199,8 +244,10 @@ def run(ctx: core.Run):
         "the API) make topil() take the blue plane for the alpha while numpy() does not: outside the premises of "
         "pil_numpy_agree_doc_partial, observed on the model only.",
     ]
+    ctx.extra["generated_sample_arithmetic"] = {k: gen_samples[k] for k in ("plane_arith", "create_rows", "parse_rows")
+                                                if k in gen_samples} if isinstance(gen_samples, dict) else None
     if ctx.tier == "thorough":
-        ctx.recheck(["PsdVerif.Props.C07"])
+        ctx.recheck(["PsdVerif.Props.C07", "PsdVerif.Props.C07Samples"])
 
 
 # ---------------------------------------------------------------------------------------------
@@ -629,6 +676,10 @@ def replay(ctx, data):
         check_layer_host(ctx, core.REPO / "tests" / "psd_files" / inp["host"], img, Compression(inp["compression"]), inp)
     elif inp.get("kind") == "fixture":
         check_fixtures(ctx, False)
+    elif str(inp.get("kind", "")).startswith(("search-", "sample-")):
+        c07_samples.replay_case(ctx, inp, classify_doc)
+        for d in ctx.corr_disagreements:
+            print("model/implementation disagreement:", d)
     for f in ctx.failures:
         print("observed:", f["signature"], "-", f["what"], "| observed", f["observed"], "| expected", f["expected"])
     if not ctx.failures:
